@@ -41,6 +41,8 @@ def _worker(modname, tier, vseed, phase_idx, phase, lo, hi):
     for idx in range(lo, hi):
         seed = mix(vseed, check.ID, phase["name"], idx)
         sim = Sim(seed=seed, keep_events=False)
+        # watchdog of last resort, re-armed for every run (SIGALRM below is the normal per-run limit)
+        faulthandler.dump_traceback_later(max(120, RUN_ALARM_S * 3), exit=True)
         signal.alarm(RUN_ALARM_S)
         try:
             with core.quiet_stdout():
